@@ -43,7 +43,7 @@ func c03Spec(tier string) *Spec {
 		{Name: "zset", Prog: []Op{C("ZADD", k0, "1", "a\r\nb", "1", "", "2", "\r\n", "3", "+OK"), C("ZADD", crlfKey, "1", "$3")}},
 		{Name: "stream", Prog: []Op{C("XADD", k0, "5-1", "f\r\n", "a\r\nb", "", "$3"), C("XADD", crlfKey, "6-1", "+OK", "\r\n")}},
 	}
-	alpha := []string{k0, crlfKey, "0", "1", "-1", "a\r\nb"}
+	alpha := []string{k0, crlfKey, "0", "1", "-1", "a\r\nb", "l\nf"}
 	maxArgs := 3
 	if tier == "thorough" {
 		maxArgs = 4
@@ -73,7 +73,7 @@ func c03Spec(tier string) *Spec {
 	ops = append(ops, C("BLPOP", k0, "1"), C("BRPOP", k0, "1"), C("BLPOP", crlfKey, k0, "1"), C("BLPOP", k0), C("BLPOP", k0, "a\r\nb"))
 	return &Spec{Prop: "C03", ShardNum: shardNum, Keys: []string{k0, crlfKey}, Alphabet: ops, Seeds: seeds, Depth: 1,
 		Budget: budget(tier, 200*time.Second, 25*time.Minute), TTLTolMs: 1000,
-		Rule: "every registered command x every argument vector (<= arity bound) over {key, key containing CRLF, 0, 1, -1, payload with CRLF} from pre-states of every type whose members / fields / values / key names contain CR LF, the empty string and RESP look-alikes: the reply must decode strictly to one value accepted by the reference model"}
+		Rule: "every registered command x every argument vector (<= arity bound) over {key, key containing CRLF, 0, 1, -1, payload with CRLF, payload with a bare LF} from pre-states of every type whose members / fields / values / key names contain CR LF, the empty string and RESP look-alikes: the reply must decode strictly to one value accepted by the reference model"}
 }
 
 func init() { specs["C03"] = c03Spec }
